@@ -198,17 +198,17 @@ def run(ctx: Context) -> None:
     for fi in p.implementations(base, 'ravel_index'):
         flow = ctx.flow(fi)
         calls = [c for c in calls_in(fi) if callee(ctx, fi, c) == 'numpy.ravel_multi_index']
-        ctx.require(len(calls) == 1, f"{fi.short}: expected one numpy.ravel_multi_index call, found {len(calls)}")
+        ctx.need('R01.2', len(calls) == 1, f"expected one numpy.ravel_multi_index call, found {len(calls)}", fi)
         call = calls[0]
         unpack_calls = [c for c in calls_in(fi) if isinstance(c.func, ast.Attribute) and c.func.attr == 'unpack_index']
-        ctx.require(len(unpack_calls) == 1, f"{fi.short}: expected one unpack_index call")
+        ctx.need('R01.2', len(unpack_calls) == 1, f"expected one unpack_index call", fi)
         uc = flow.canon(unpack_calls[0])
         ok_u = (len(unpack_calls[0].args) == 1 and flow.canon(unpack_calls[0].args[0]) == ('param', fi.params[1])
                 and flow.canon(unpack_calls[0].func.value) == ('param', 'self'))
         ctx.check('R01.2', ok_u, "the native index argument is unpacked by self.unpack_index", fi, unpack_calls[0])
         a0 = call.args[0] if call.args else kwarg(call, 'multi_index')
         a1 = call.args[1] if len(call.args) > 1 else kwarg(call, 'dims')
-        ctx.require(a0 is not None and a1 is not None, f"{fi.short}: ravel_multi_index without both arguments")
+        ctx.need('R01.2', a0 is not None and a1 is not None, f"ravel_multi_index without both arguments", fi)
         ctx.check('R01.2', flow.canon(a0) == ('unpack', uc, (1,)), "the multi-index is the unpacked index tuple, unpermuted", fi, call,
                   construct=f"multi_index={norm_text(flow.resolve(a0))}")
         want_shape = ('sub', ('attr', ('param', 'self'), 'grid_shape'), ('unpack', uc, (0,)))
@@ -225,15 +225,15 @@ def run(ctx: Context) -> None:
     for fi in p.implementations(base, 'wind_index'):
         flow = ctx.flow(fi)
         calls = [c for c in calls_in(fi) if callee(ctx, fi, c) == 'numpy.unravel_index']
-        ctx.require(len(calls) == 1, f"{fi.short}: expected one numpy.unravel_index call, found {len(calls)}")
+        ctx.need('R01.2', len(calls) == 1, f"expected one numpy.unravel_index call, found {len(calls)}", fi)
         call = calls[0]
         a0 = call.args[0] if call.args else kwarg(call, 'indices')
         a1 = call.args[1] if len(call.args) > 1 else kwarg(call, 'shape')
-        ctx.require(a0 is not None and a1 is not None, f"{fi.short}: unravel_index without both arguments")
+        ctx.need('R01.2', a0 is not None and a1 is not None, f"unravel_index without both arguments", fi)
         ctx.check('R01.2', flow.canon(a0) == ('param', fi.params[1]), "the linear index argument is unravelled as given", fi, call,
                   construct=f"indices={norm_text(flow.resolve(a0))}")
         packs = [c for c in calls_in(fi) if isinstance(c.func, ast.Attribute) and c.func.attr == 'pack_index']
-        ctx.require(len(packs) == 1 and len(packs[0].args) == 2, f"{fi.short}: expected one pack_index(kind, indexes) call")
+        ctx.need('R01.2', len(packs) == 1 and len(packs[0].args) == 2, f"expected one pack_index(kind, indexes) call", fi)
         pk = packs[0]
         sh = flow.resolve(a1)
         ok_shape = (isinstance(sh, ast.Subscript) and flow.canon(sh.value) == ('attr', ('param', 'self'), 'grid_shape')
@@ -249,7 +249,7 @@ def run(ctx: Context) -> None:
             ctx.check('R01.3', flow.resolve(r.value) is pk, "the native index is the packed result itself", fi, r)
         # R01.5
         kind_param = 'grid_kind'
-        ctx.require(kind_param in fi.params, f"{fi.short}: no grid_kind parameter")
+        ctx.need('R01.5', kind_param in fi.params, f"no grid_kind parameter", fi)
         assigns = [n for n in walk_no_nested(fi.node) if isinstance(n, ast.Assign)
                    and any(isinstance(t, ast.Name) and t.id == kind_param for t in n.targets)]
         ok = True
